@@ -62,7 +62,7 @@ class _GroupNode:
         self.attrs = _Attrs()
 
 
-def _check_chunks(chunks, shape):
+def _check_chunks(chunks, shape, maxshape=None):
     if chunks is None or chunks is True:
         return None if chunks is None else tuple(max(1, s) for s in shape) \
             if all(s > 0 for s in shape) else None
@@ -77,7 +77,12 @@ def _check_chunks(chunks, shape):
     if any(c <= 0 for c in chunks):
         raise ValueError("All chunk dimensions must be positive "
                          "(all chunk dimensions must be positive)")
-    if any(c > s for c, s in zip(chunks, shape)):
+    # a chunk may exceed the current shape only along a resizable
+    # dimension (that is how anndata stores an empty array: shape (0,),
+    # chunks (1024,), maxshape (None,))
+    ms = tuple(maxshape) if maxshape is not None else shape
+    if any(c > s and (m is not None and c > m)
+           for c, s, m in zip(chunks, shape, ms)):
         raise ValueError("Chunk shape must not be greater than data shape "
                          f"in any dimension. {chunks} is not compatible "
                          f"with {shape}")
@@ -132,6 +137,11 @@ class Dataset:
     @property
     def chunks(self):
         return self._n.chunks
+
+    @property
+    def maxshape(self):
+        ms = getattr(self._n, 'maxshape', None)
+        return ms if ms is not None else tuple(self.shape)
 
     @property
     def compression(self):
@@ -335,7 +345,7 @@ class Group:
 
     def create_dataset(self, name, shape=None, dtype=None, data=None,
                        chunks=None, compression=None, compression_opts=None,
-                       **kw):
+                       maxshape=None, **kw):
         self._f._writable()
         node, leaf = self._walk(name, create=True)
         if leaf in node.children:
@@ -387,12 +397,14 @@ class Group:
         shp = arr.shape if isinstance(arr, _np.ndarray) else ()
         if chunks is None and compression is not None and len(shp) > 0:
             chunks = True
-        ch = _check_chunks(chunks, shp)
+        ch = _check_chunks(chunks, shp, maxshape)
         if isinstance(arr, SArr) and dt.kind in 'iu' and \
                 core.CUR is not None and core.CUR.mode == 'sym':
             _range_obligation(dt, arr)
         node.children[leaf] = _DsNode(arr, dt, ch, compression,
                                       compression_opts)
+        node.children[leaf].maxshape = tuple(maxshape) \
+            if maxshape is not None else None
         return Dataset(node.children[leaf], self._f, f"{self.name}/{name}")
 
     def copy(self, *a, **k):
